@@ -101,3 +101,419 @@ pub fn mutate(rng: &mut Rng, line: &str) -> String {
     }
     cs.into_iter().collect()
 }
+
+// ---------------------------------------------------------------------------------------------
+// Program generator: terminating programs of the well-defined fragment (DESIGN §6.2).
+
+pub struct Prog {
+    pub lines: Vec<(u32, String)>,
+    pub replies: Vec<String>,
+}
+
+impl Prog {
+    pub fn text(&self) -> Vec<String> {
+        self.lines.iter().map(|(n, s)| format!("{} {}", n, s)).collect()
+    }
+}
+
+struct PG<'a> {
+    rng: &'a mut Rng,
+    lines: Vec<(u32, String)>,
+    next_line: u32,
+    step: u32,
+    subs: Vec<u32>,        // line numbers of subroutines (filled in at the end)
+    sub_bodies: Vec<Vec<String>>,
+    replies: Vec<String>,
+    loop_depth: usize,
+    counter: usize,
+    data_items: usize,
+    reads: usize,
+    fns: Vec<(String, usize)>,
+    dims: Vec<String>,
+}
+
+const IVARS: &[&str] = &["A", "B", "C", "I", "J", "K", "N%", "M%", "X", "Y"];
+const SVARS: &[&str] = &["A$", "B$", "S$"];
+
+impl<'a> PG<'a> {
+    fn emit(&mut self, s: String) {
+        self.lines.push((self.next_line, s));
+        self.next_line += self.step;
+    }
+    fn ivar(&mut self) -> String {
+        self.rng.pick(IVARS).to_string()
+    }
+    fn svar(&mut self) -> String {
+        self.rng.pick(SVARS).to_string()
+    }
+    fn small(&mut self) -> i32 {
+        (self.rng.below(21) as i32) - 5
+    }
+    fn iexpr(&mut self, depth: usize) -> String {
+        if depth == 0 || self.rng.chance(1, 3) {
+            return match self.rng.below(5) {
+                0 | 1 => format!("{}", self.small()),
+                2 | 3 => self.ivar(),
+                _ => {
+                    if !self.dims.is_empty() && self.rng.chance(1, 2) {
+                        let d = self.rng.pick(&self.dims).clone();
+                        format!("{}({})", d, self.rng.below(6))
+                    } else {
+                        format!("Q({})", self.rng.below(11))
+                    }
+                }
+            };
+        }
+        let l = self.iexpr(depth - 1);
+        let r = self.iexpr(depth - 1);
+        match self.rng.below(14) {
+            0 | 1 => format!("{}+{}", l, r),
+            2 | 3 => format!("{}-{}", l, r),
+            4 => format!("{}*{}", l, r),
+            5 => format!("({})*({})", l, r),
+            6 => format!("{} MOD 7", l),
+            7 => format!("({})\\3", l),
+            8 => format!("ABS({})", l),
+            9 => format!("-({})", l),
+            10 => format!("LEN({})", self.sexpr(1)),
+            11 => {
+                if !self.fns.is_empty() {
+                    let (f, ar) = self.rng.pick(&self.fns).clone();
+                    let args: Vec<String> = (0..ar).map(|_| self.iexpr(0)).collect();
+                    if ar == 0 { format!("{}()", f) } else { format!("{}({})", f, args.join(",")) }
+                } else {
+                    format!("SGN({})", l)
+                }
+            }
+            12 => format!("{}/2", l),
+            _ => format!("INT({})", l),
+        }
+    }
+    fn cond(&mut self) -> String {
+        let l = self.iexpr(1);
+        let r = self.iexpr(1);
+        let op = *self.rng.pick(&["=", "<>", "<", "<=", ">", ">="]);
+        match self.rng.below(6) {
+            0 => format!("{}{}{} AND {}>0", l, op, r, self.ivar()),
+            1 => format!("NOT {}{}{}", l, op, r),
+            2 => format!("{}{}{} OR {}=0", l, op, r, self.ivar()),
+            3 => format!("{}={}", self.sexpr(1), self.sexpr(1)),
+            _ => format!("{}{}{}", l, op, r),
+        }
+    }
+    fn sexpr(&mut self, depth: usize) -> String {
+        if depth == 0 || self.rng.chance(1, 3) {
+            return match self.rng.below(4) {
+                0 => format!("\"{}\"", self.rng.pick(&["", "a", "xy", "HELLO", "b c"])),
+                _ => self.svar(),
+            };
+        }
+        match self.rng.below(8) {
+            0 => format!("{}+{}", self.sexpr(depth - 1), self.sexpr(depth - 1)),
+            1 => format!("LEFT$({},{})", self.sexpr(depth - 1), self.rng.below(4)),
+            2 => format!("RIGHT$({},{})", self.sexpr(depth - 1), self.rng.below(4)),
+            3 => format!("MID$({},{},{})", self.sexpr(depth - 1), 1 + self.rng.below(3), self.rng.below(3)),
+            4 => format!("CHR$({})", 65 + self.rng.below(26)),
+            5 => format!("STR$({})", self.iexpr(0)),
+            6 => format!("STRING$({},\"*\")", self.rng.below(4)),
+            _ => format!("HEX$({})", self.rng.below(300)),
+        }
+    }
+    fn print_stmt(&mut self) -> String {
+        let n = 1 + self.rng.below(4);
+        let mut s = String::from("PRINT ");
+        for i in 0..n {
+            match self.rng.below(8) {
+                0 | 1 | 2 => s.push_str(&self.iexpr(1)),
+                3 | 4 => s.push_str(&self.sexpr(1)),
+                5 => s.push_str(&format!("TAB({})", self.rng.below(30))),
+                6 => s.push_str(&format!("SPC({})", self.rng.below(5))),
+                _ => s.push_str("POS(0)"),
+            }
+            if i + 1 < n || self.rng.chance(1, 4) {
+                s.push_str(*self.rng.pick(&[";", ",", ";", " "]));
+            }
+        }
+        s
+    }
+    /// a simple (non-control) statement
+    fn simple(&mut self) -> String {
+        match self.rng.below(16) {
+            0 | 1 | 2 => format!("{}={}", self.ivar(), self.iexpr(2)),
+            3 | 4 | 5 => self.print_stmt(),
+            6 => format!("{}={}", self.svar(), self.sexpr(2)),
+            7 => format!("Q({})={}", self.rng.below(11), self.iexpr(1)),
+            8 => {
+                if self.reads < self.data_items {
+                    self.reads += 1;
+                    format!("READ {}", self.ivar())
+                } else {
+                    "RESTORE".to_string()
+                }
+            }
+            9 => format!("SWAP {},{}", self.rng.pick(&["A", "B", "C"]), self.rng.pick(&["X", "Y", "A"])),
+            10 => format!("MID$({},{})=\"{}\"", self.svar(), 1 + self.rng.below(3), self.rng.pick(&["z", "QQ", ""])),
+            11 => format!("LET {}={}", self.ivar(), self.small()),
+            12 => "REM nothing here".to_string(),
+            13 => {
+                if !self.dims.is_empty() {
+                    let d = self.rng.pick(&self.dims).clone();
+                    format!("{}({})={}", d, self.rng.below(6), self.iexpr(1))
+                } else {
+                    format!("{}={}+1", self.ivar(), self.ivar())
+                }
+            }
+            14 => {
+                let r = self.small();
+                self.replies.push(format!("{}", r));
+                format!("INPUT \"N\";{}", self.ivar())
+            }
+            _ => format!("{}={}", self.ivar(), self.iexpr(1)),
+        }
+    }
+    fn fresh_counter(&mut self) -> String {
+        self.counter += 1;
+        format!("Z{}", self.counter)
+    }
+    fn block(&mut self, depth: usize) {
+        let kind = self.rng.below(if depth == 0 { 6 } else { 16 });
+        match kind {
+            0..=5 => {
+                // one line with 1..3 simple statements
+                let n = 1 + self.rng.below(3);
+                let st: Vec<String> = (0..n).map(|_| self.simple()).collect();
+                self.emit(st.join(":"));
+            }
+            6 | 7 => {
+                // IF on one line
+                let c = self.cond();
+                let t = self.simple();
+                if self.rng.chance(1, 2) {
+                    let e = self.simple();
+                    self.emit(format!("IF {} THEN {} ELSE {}", c, t, e));
+                } else if self.rng.chance(1, 3) {
+                    let t2 = self.simple();
+                    self.emit(format!("IF {} THEN {}:{}", c, t, t2));
+                } else {
+                    self.emit(format!("IF {} THEN {}", c, t));
+                }
+            }
+            8 => {
+                // IF … THEN line-number skipping a block (forward jump)
+                let c = self.cond();
+                let at = self.lines.len();
+                self.emit(String::new());
+                let n = 1 + self.rng.below(2);
+                for _ in 0..n {
+                    self.block(depth - 1);
+                }
+                let target = self.next_line;
+                self.emit("REM target".to_string());
+                let form = self.rng.below(3);
+                self.lines[at].1 = match form {
+                    0 => format!("IF {} THEN {}", c, target),
+                    1 => format!("IF {} GOTO {}", c, target),
+                    _ => format!("IF {} THEN PRINT \"T\" ELSE {}", c, target),
+                };
+            }
+            9 | 10 => {
+                // FOR / NEXT
+                let v = self.rng.pick(&["I", "J", "K", "L%"]).to_string();
+                let v = format!("{}{}", &v[..1], if v.ends_with('%') { "%" } else { "" });
+                let var = if self.loop_depth == 0 { v } else { format!("F{}", self.loop_depth) };
+                let (a, b, st) = match self.rng.below(5) {
+                    0 => (1, 3, 1),
+                    1 => (3, 1, -1),
+                    2 => (0, 4, 2),
+                    3 => (5, 1, 1), // first pass past the limit: body runs once
+                    _ => (2, 2, 1),
+                };
+                let head = if st == 1 && self.rng.chance(1, 2) {
+                    format!("FOR {}={} TO {}", var, a, b)
+                } else {
+                    format!("FOR {}={} TO {} STEP {}", var, a, b, st)
+                };
+                self.loop_depth += 1;
+                if self.rng.chance(1, 4) {
+                    // single-line loop
+                    let body = self.simple();
+                    self.emit(format!("{}:{}:NEXT {}", head, body, var));
+                } else {
+                    self.emit(head);
+                    let n = 1 + self.rng.below(2);
+                    for _ in 0..n {
+                        self.block(depth - 1);
+                    }
+                    if self.rng.chance(1, 6) {
+                        // early exit
+                        let target = self.next_line + self.step;
+                        self.emit(format!("IF {}={} THEN {}", var, b, target));
+                        let nx = if self.rng.chance(1, 2) { format!("NEXT {}", var) } else { "NEXT".into() };
+                        self.emit(nx);
+                        self.emit("REM after loop".into());
+                    } else {
+                        let nx = if self.rng.chance(1, 2) { format!("NEXT {}", var) } else { "NEXT".into() };
+                        self.emit(nx);
+                    }
+                }
+                self.loop_depth -= 1;
+            }
+            11 => {
+                // WHILE / WEND with a fresh counter
+                let z = self.fresh_counter();
+                self.emit(format!("{}=0", z));
+                let lim = 1 + self.rng.below(3);
+                self.emit(format!("WHILE {}<{}", z, lim));
+                self.block(depth - 1);
+                self.emit(format!("{}={}+1", z, z));
+                self.emit("WEND".into());
+            }
+            12 | 13 => {
+                // GOSUB
+                let body_n = 1 + self.rng.below(2);
+                let mut body: Vec<String> = vec![];
+                for _ in 0..body_n {
+                    body.push(self.simple());
+                }
+                let idx = self.sub_bodies.len();
+                self.sub_bodies.push(body);
+                if self.rng.chance(1, 3) {
+                    let sel = self.rng.below(4);
+                    self.emit(format!("ON {} GOSUB @{},@{}", sel, idx, idx));
+                } else {
+                    self.emit(format!("GOSUB @{}", idx));
+                }
+            }
+            14 => {
+                // ON … GOTO forward
+                let sel = self.iexpr(0);
+                let at = self.lines.len();
+                self.emit(String::new());
+                self.emit(self_simple_print("ON-FALLTHROUGH"));
+                let t1 = self.next_line;
+                self.emit(self_simple_print("T1"));
+                let t2 = self.next_line;
+                self.emit(self_simple_print("T2"));
+                self.lines[at].1 = format!("ON {} GOTO {},{}", sel, t1, t2);
+            }
+            _ => {
+                // backward GOTO guarded by a counter
+                let z = self.fresh_counter();
+                let top = self.next_line;
+                self.emit(format!("{}={}+1", z, z));
+                self.block(depth - 1);
+                let lim = 2 + self.rng.below(2);
+                self.emit(format!("IF {}<{} THEN GOTO {}", z, lim, top));
+            }
+        }
+    }
+}
+
+fn self_simple_print(tag: &str) -> String {
+    format!("PRINT \"{}\"", tag)
+}
+
+/// A terminating program of the well-defined fragment. `size` ≈ number of top-level blocks.
+pub fn gen_program(rng: &mut Rng, size: usize) -> Prog {
+    let start = *rng.pick(&[10u32, 10, 100, 5, 1000]);
+    let step = *rng.pick(&[10u32, 10, 5, 1, 20]);
+    let mut g = PG {
+        rng,
+        lines: vec![],
+        next_line: start,
+        step,
+        subs: vec![],
+        sub_bodies: vec![],
+        replies: vec![],
+        loop_depth: 0,
+        counter: 0,
+        data_items: 0,
+        reads: 0,
+        fns: vec![],
+        dims: vec![],
+    };
+    // preamble
+    if g.rng.chance(1, 3) {
+        g.emit("DEFINT A-C".into());
+    }
+    if g.rng.chance(1, 2) {
+        g.emit("DIM D(5),E$(3)".into());
+        g.dims.push("D".into());
+    }
+    if g.rng.chance(1, 2) {
+        g.emit("DEF FNA(X)=X*2+1".into());
+        g.fns.push(("FNA".into(), 1));
+        if g.rng.chance(1, 2) {
+            g.emit("DEF FNB(X,Y)=FNA(X)-Y+A".into());
+            g.fns.push(("FNB".into(), 2));
+        }
+    }
+    let data_early = g.rng.chance(1, 2);
+    let n_data = g.rng.below(6);
+    g.data_items = n_data;
+    let data_line = |n: usize, rng: &mut Rng| -> String {
+        let items: Vec<String> = (0..n).map(|_| format!("{}", rng.below(40) as i32 - 10)).collect();
+        format!("DATA {}", items.join(","))
+    };
+    if data_early && n_data > 0 {
+        let l = data_line(n_data, g.rng);
+        g.emit(l);
+    }
+    if g.rng.chance(1, 5) {
+        g.emit("TRON".into());
+    }
+    for _ in 0..size {
+        g.block(2);
+    }
+    if g.rng.chance(1, 8) {
+        g.emit("STOP".into());
+    }
+    if g.rng.chance(1, 2) {
+        g.emit("PRINT \"DONE\";A;B;X".into());
+    }
+    g.emit("END".into());
+    // subroutines after END
+    let mut sub_lines: Vec<u32> = vec![];
+    let bodies = std::mem::take(&mut g.sub_bodies);
+    for body in bodies {
+        sub_lines.push(g.next_line);
+        for st in body {
+            g.emit(st);
+        }
+        g.emit("RETURN".into());
+    }
+    if !data_early && n_data > 0 {
+        let l = data_line(n_data, g.rng);
+        g.emit(l);
+    }
+    g.subs = sub_lines.clone();
+    for (_, s) in g.lines.iter_mut() {
+        while let Some(i) = s.find('@') {
+            let rest = &s[i + 1..];
+            let digits: String = rest.chars().take_while(|c| c.is_ascii_digit()).collect();
+            let idx: usize = digits.parse().unwrap_or(0);
+            let ln = sub_lines.get(idx).copied().unwrap_or(0);
+            s.replace_range(i..i + 1 + digits.len(), &ln.to_string());
+        }
+    }
+    Prog { lines: g.lines, replies: g.replies }
+}
+
+/// Damage a program: dangling references, unmatched WHILE/WEND, token-level mutations.
+pub fn damage(rng: &mut Rng, p: &mut Prog) {
+    if p.lines.is_empty() {
+        return;
+    }
+    let i = rng.below(p.lines.len());
+    match rng.below(6) {
+        0 => p.lines[i].1 = format!("GOTO {}", 60000 + rng.below(5000)),
+        1 => p.lines[i].1 = "WEND".into(),
+        2 => p.lines[i].1 = format!("WHILE {}", 1),
+        3 => p.lines[i].1 = format!("PRINT \"é日本\":GOSUB {}", 7 + rng.below(3)),
+        4 => p.lines[i].1 = format!("ON X GOTO 10,{},30:RESTORE {}", 64000 + rng.below(100), 64001),
+        _ => {
+            let l = p.lines[i].1.clone();
+            p.lines[i].1 = mutate(rng, &l);
+        }
+    }
+}
